@@ -592,11 +592,14 @@ class M_is_ready_to_execute(MgrContract):
     def requires(self, it, pre, a):
         return [('node-in-graph', self.mv(pre, a).G.node(T(a.node_id, it.st)))]
 
-    def ensures(self, it, pre, post, a, res):
+    def result_term(self, it, pre, a):
         m = self.mv(pre, a)
         n = T(a.node_id, it.st)
         x = z3.Const('rx', PyV)
-        return [('result', B(res) == FA([x], z3.Implies(BASE_PRED(it, pre, m, a.dag, n, x), READY(m, SUBST(m, x)))))]
+        return FA([x], z3.Implies(BASE_PRED(it, pre, m, a.dag, n, x), READY(m, SUBST(m, x))))
+
+    def ensures(self, it, pre, post, a, res):
+        return [('result', B(res) == self.result_term(it, pre, a))]
 
     @property
     def loops(self):
@@ -619,11 +622,13 @@ class M_has_subgraph_error(MgrContract):
         m, d = mgr_and_dag(it)
         return m, CallArgs([d])
 
-    def ensures(self, it, pre, post, a, res):
+    def result_term(self, it, pre, a):
         m = self.mv(pre, a)
         x = z3.Const('ex', PyV)
-        return [('result', B(res) == z3.Exists([x], z3.And(node_in_dag(it, pre, a.dag, x),
-                                                           PyV.is_exc(m.S.R.get(x, z3.BoolVal(False))))))]
+        return z3.Exists([x], z3.And(node_in_dag(it, pre, a.dag, x), PyV.is_exc(m.S.R.get(x, z3.BoolVal(False)))))
+
+    def ensures(self, it, pre, post, a, res):
+        return [('result', B(res) == self.result_term(it, pre, a))]
 
 
 NOTIF = z3.Function('notifset', PyV, PyV, BoolS)      # NOTIF(n, x): x is notified when n completes
